@@ -43,6 +43,7 @@ class C08(Property):
              (REC, "Record.clear_candidate_clusters"), (REC, "Record.clear_protoclusters"),
              (REC, "Record.get_cds_features"), (REC, "Record.get_cds_by_name"),
              (REC, "Record.get_cds_features_within_regions"), (REC, "Record.add_feature"),
+             (REC, "Record.strip_antismash_annotations"),
              ("antismash/common/secmet/qualifiers/gene_functions.py", "GeneFunctionAnnotations.__init__"), ("antismash/common/secmet/qualifiers/gene_functions.py", "GeneFunctionAnnotations.add"),
              ("antismash/common/secmet/qualifiers/gene_functions.py", "GeneFunctionAnnotations.clear"), ("antismash/common/secmet/qualifiers/gene_functions.py", "GeneFunctionAnnotations.get_by_function"),
              ("antismash/common/secmet/qualifiers/gene_functions.py", "GeneFunctionAnnotations.get_by_tool"), ("antismash/common/secmet/qualifiers/gene_functions.py", "GeneFunctionAnnotations.__iter__"),
@@ -371,14 +372,18 @@ class C08(Property):
         return ops
 
     @staticmethod
-    def carried_cores(ann: List[List[Any]]) -> List[str]:
+    def carried_list(ann: List[List[Any]]) -> List[Any]:
         carried: List[Any] = []
         for op in ann:
             if op[0] == "clear":
                 carried = []
             elif op[1:] not in carried:
                 carried.append(op[1:])
-        return [a[3] for a in carried if a[0] == 1]
+        return carried
+
+    @classmethod
+    def carried_cores(cls, ann: List[List[Any]]) -> List[str]:
+        return [a[3] for a in cls.carried_list(ann) if a[0] == 1]
 
     @staticmethod
     def with_clears(rng: random.Random, case: Dict[str, Any]) -> List[List[Any]]:
@@ -395,6 +400,9 @@ class C08(Property):
         kind_of = {i: k for k, ids in area_ids.items() for i in ids}
         pending = list(base)
         gene_ids = [g["id"] for g in case["genes"]]
+        products = sorted({p["product"] for p in case["protos"]})
+        retired: set = set()
+        ever_added: set = set()
 
         def observe() -> None:
             r = rng.random()
@@ -428,8 +436,31 @@ class C08(Property):
                     continue
                 regions_alive = True
             elif op[0] == "area":
+                if op[1] in retired:
+                    continue
                 registered[kind_of[op[1]]].add(op[1])
+                ever_added.add(op[1])
             out.append(op)
+            # annotations are rewritten on a gene (in the record or not yet), or the whole record is stripped for a rerun;
+            # collections that met the old annotations are not reused afterwards (their definition sets are history)
+            if products and gene_ids and rng.random() < 0.2:
+                r = rng.random()
+                waiting = [o[1] for o in pending if o[0] == "cds"]
+                pick = (lambda: rng.choice(waiting)) if waiting and rng.random() < 0.7 else (lambda: rng.choice(gene_ids))
+                if r < 0.6:
+                    fn = rng.choice([1, 1, 2])
+                    out.append(["annotate", pick(),
+                                ["add", fn, rng.choice(["rules", "smcogs"]), rng.choice(["d1", "d2"]),
+                                 rng.choice(products) if fn == 1 else ""]])
+                elif r < 0.8:
+                    out.append(["strip_gene", pick()])
+                else:
+                    out.append(["strip"])
+                    for ids in registered.values():
+                        ids.clear()
+                    regions_alive = False
+                retired.update(ever_added)
+                retired.update(c["id"] for c in case["cands"] if any(k in ever_added for k in c["kids"]))
             for _ in range(rng.choice([0, 0, 1, 1, 2])):
                 observe()
             if rng.random() < 0.22:
@@ -447,7 +478,7 @@ class C08(Property):
                         regions_alive = False
                     # some of the cleared collections come back later
                     for i in cleared:
-                        if rng.random() < 0.6:
+                        if rng.random() < 0.6 and i not in retired:
                             pending.insert(rng.randrange(0, len(pending) + 1), ["area", i])
                 if rng.random() < 0.6:
                     pending.insert(rng.randrange(0, len(pending) + 1), ["regions"])
@@ -614,13 +645,23 @@ class C08(Property):
 
         made = {i: self.make_cds(g) for i, g in genes.items()}     # the objects exist before they are added
         ann_views = [[i, self.annotation_views(made[i])] for i in sorted(made) if "ann" in genes[i]]
+        hist = {i: list(g.get("ann", [])) for i, g in genes.items()}     # calls made on each gene's container so far
+        rewrites: List[Any] = []
+
+        def rewrite(gid_: int, annop: List[Any]) -> None:
+            """the annotation call has been made on the real object; tell the model if the gene is in the record"""
+            hist[gid_].append(annop)
+            if gid_ in cdses:
+                model_ops.append(["set_cores", gid_, list(hist[gid_])])
+                rewrites.append([gid_, self.annotation_views(made[gid_])])
         for step, op in enumerate(ops):
             try:
                 kind = op[0]
                 generic = (step + len(ops)) % 2 == 0       # half of the additions go through Record.add_feature
                 if kind == "cds":
                     cds = made[op[1]]
-                    model_ops.append(["cds", genes[op[1]]])
+                    model_ops.append(["cds", dict(genes[op[1]], ann=list(hist[op[1]])) if "ann" in genes[op[1]]
+                                      else genes[op[1]]])
                     (rec.add_feature if generic else rec.add_cds_feature)(cds)
                     cdses[op[1]] = cds
                 elif kind == "area":
@@ -669,6 +710,21 @@ class C08(Property):
                     model_ops.append(["name", op[1]])
                     cds = rec.get_cds_by_name(f"g{op[1]}")
                     log.append([[gid(cds), int(cds.location.start), int(cds.location.end)]])
+                elif kind == "annotate":
+                    from antismash.common.secmet.qualifiers.gene_functions import GeneFunction
+                    made[op[1]].gene_functions.add(GeneFunction(op[2][1]), op[2][2], op[2][3], op[2][4] or None)
+                    rewrite(op[1], op[2])
+                elif kind == "strip_gene":
+                    made[op[1]].strip_antismash_annotations()
+                    rewrite(op[1], ["clear"])
+                elif kind == "strip":
+                    if rec.get_regions():          # so that the clears inside do not build transient regions
+                        rec.clear_regions()
+                        model_ops.append(["clear_regions"])
+                    rec.strip_antismash_annotations()
+                    model_ops += [["clear_protos", []], ["clear_cands", []], ["clear_subs", []], ["clear_regions"]]
+                    for c in rec.get_cds_features():
+                        rewrite(gid(c), ["clear"])
                 elif kind == "has":
                     model_ops.append(["has", op[1], op[2]])
                     log.append([[1 if made[op[2]] in objs[op[1]] else 0]])
@@ -686,7 +742,8 @@ class C08(Property):
                     raise ValueError(kind)
             except Exception as exc:  # pylint: disable=broad-except
                 return {"err": err_kind(exc), "at": step, "msg": str(exc)[:200], "model_ops": model_ops,
-                        "regions": regions, "log": log, "areas": [descr[i] for i in sorted(descr)]}
+                        "regions": regions, "log": log, "areas": [descr[i] for i in sorted(descr)],
+                        "ann_views": ann_views, "rewrites": rewrites}
         children = [[i, sorted(gid(c) for c in objs[i].cds_children)] for i in sorted(objs)]
         sections = []
         for i in sorted(objs):
@@ -700,7 +757,7 @@ class C08(Property):
         defs = [[p["id"], sorted(gid(c) for c in objs[p["id"]].definition_cdses)] for p in case["protos"]]
         return {"order": [gid(c) for c in rec.get_cds_features()],
                 "children": children, "sections": sections, "region": sorted(region_of), "defs": defs,
-                "regions": regions, "model_ops": model_ops, "log": log, "ann_views": ann_views,
+                "regions": regions, "model_ops": model_ops, "log": log, "ann_views": ann_views, "rewrites": rewrites,
                 "areas": [descr[i] for i in sorted(descr)]}
 
     def run_history(self, case: Dict[str, Any]) -> Dict[str, Any]:
@@ -782,7 +839,10 @@ class C08(Property):
         details = []
         corr = True
         for name, o, m in (("first", first, drv["model"]), ("second", second, drv["model2"])):
-            if "err" in o:
+            if m.get("err") == "annotation-after-pairing":
+                ok = True          # a gene re-annotated after a collection listed it: beyond the model, spec still applies
+                tags.append("beyond-model")
+            elif "err" in o:
                 ok = m.get("err") == o["err"].split(":")[0]
                 tags.append("err:" + o["err"])
             else:
@@ -801,22 +861,35 @@ class C08(Property):
             if got["region"] != want_region:
                 spec_ok = False
                 details.append(f"spec fails on region: expected {want_region} got {got['region']}")
+            beyond = "beyond-model" in tags
             for k in ("children", "defs", "sections"):
+                if k == "defs" and beyond:
+                    continue      # a gene re-annotated after a collection listed it: definition sets are fixed at the meeting
                 have = dict((i, v) for i, v in got[k])
                 for i, v in spec[k]:
                     if v is not None and have.get(i) != v:      # null: the spec does not determine it (not alive)
                         spec_ok = False
                         details.append(f"spec fails on {k} of {i}: expected {v} got {have.get(i)}")
             views = dict((i, v) for i, v in first.get("ann_views", []))
-            for entry in drv.get("ann", []):
-                v = views.get(entry["id"])
+            pairs = [(e, views.get(e["id"]), True) for e in drv.get("ann", [])] + \
+                [(e, rv[1], False) for e, rv in zip(drv.get("ann_rewrites", []), first.get("rewrites", []))]
+            if len(drv.get("ann_rewrites", [])) != len(first.get("rewrites", [])):
+                spec_ok = False
+                details.append("annotation rewrites of the model and of the run do not line up")
+            if first.get("rewrites"):
+                tags.append("with-reannotation")
+            for entry, v, initial in pairs:
                 if v is None:
                     continue
+                if initial:      # what the gene carried when it was built: the calls of the case's own history
+                    pass
                 carried = entry["carried"]
+                if initial:
+                    carried = self.carried_list([g["ann"] for g in case["genes"] if g["id"] == entry["id"]][0])
                 want = {"iter": carried, "len": len(carried),
                         "by_function": {str(f): [a for a in carried if a[0] == f] for f in sorted({a[0] for a in carried})},
                         "by_tool": {t: [a for a in carried if a[1] == t] for t in sorted({a[1] for a in carried})}}
-                if v != want or entry["cores"] != entry["model_cores"]:
+                if v != want or (not initial and entry["cores"] != entry["model_cores"]):
                     spec_ok = False
                     details.append(f"gene {entry['id']}: annotations carried after {[g['ann'] for g in case['genes'] if g['id'] == entry['id']]} "
                                    f"should be {want}, the gene reports {v}")
